@@ -50,3 +50,64 @@ Print Assumptions C05_hy_centre.
 Print Assumptions C05_hy_ylow.
 Print Assumptions C05_join.
 Print Assumptions C05_chain_start.
+
+(* ---------------------------------------------------------------------------------------------------------------
+   The distance itself (round 5): FineContour.calcDistance / reverse / getDistance as modelled in
+   theories/Model_Quadrature.v (the PrimFloat instance of the same definitions is run bit for bit against the real
+   methods on every run); theorems over R. *)
+From Coq Require Import Reals.
+From HT Require Import Field Model_Quadrature Proof_Quadrature.
+Local Open Scope R_scope.
+
+(* calcDistance returns the length of the polygon through the fine points: one entry per point, 0 at the first, and each
+   increment is the straight distance to the next point -- any number of points *)
+Theorem C05_distance_is_polygon_length : forall pts : list (R * R),
+  length (calc_distance Rops pts) = length pts /\
+  (pts <> [] -> nth 0 (calc_distance Rops pts) 0 = 0) /\
+  forall k, (S k < length pts)%nat ->
+    nth (S k) (calc_distance Rops pts) 0 - nth k (calc_distance Rops pts) 0 = len (nth k pts (0, 0)) (nth (S k) pts (0, 0)).
+Proof. exact calc_distance_spec. Qed.
+
+(* it is at least the straight distance between any two of the points (so never shorter than the chord of the arc) ... *)
+Theorem C05_distance_bounds_chord : forall (pts : list (R * R)) i j, (i <= j < length pts)%nat ->
+  len (nth i pts (0, 0)) (nth j pts (0, 0)) <= nth j (calc_distance Rops pts) 0 - nth i (calc_distance Rops pts) 0.
+Proof. exact calc_distance_chord. Qed.
+
+(* ... strictly increasing exactly as long as no two consecutive fine points coincide ... *)
+Theorem C05_distance_strictly_increasing : forall pts : list (R * R),
+  (forall k, (S k < length pts)%nat -> nth k pts (0, 0) <> nth (S k) pts (0, 0)) ->
+  forall i j, (i < j < length pts)%nat -> nth i (calc_distance Rops pts) 0 < nth j (calc_distance Rops pts) 0.
+Proof. exact calc_distance_strict. Qed.
+
+(* ... and the true arc length where the contour is straight, however unevenly the fine points are spaced *)
+Theorem C05_distance_exact_on_straight_contour : forall (a u : R * R) ts, fst u * fst u + snd u * snd u = 1 ->
+  (forall k, (S k < length ts)%nat -> nth k ts 0 <= nth (S k) ts 0) ->
+  calc_distance Rops (map (fun t => (fst a + t * fst u, snd a + t * snd u)) ts) = map (fun t => t - hd 0 ts) ts.
+Proof. exact calc_distance_straight. Qed.
+
+(* FineContour.reverse updates the cached distance to what calcDistance gives on the reversed points *)
+Theorem C05_reverse_keeps_distance : forall pts : list (R * R),
+  calc_distance Rops (rev pts) = rev_distance Rops (calc_distance Rops pts).
+Proof. exact reverse_distance. Qed.
+
+(* getDistance: a point's distance lies between the distances of the two fine points it selects (nearest point and the
+   neighbour on the side of the nearer segment), which are adjacent; for a point that is a fine point it is that point's own *)
+Theorem C05_point_distance_between_neighbours : forall (pos : list (R * R)) (dist : list R) p,
+  let dfp := map (fun q => len p q) pos in
+  let i1 := argmin Rops dfp in
+  let i2 := second_index Rops pos p i1 in
+  0 < nth i1 dfp 0 + nth i2 dfp 0 ->
+  Rmin (nth i1 dist 0) (nth i2 dist 0) <= get_distance Rops pos dist p <= Rmax (nth i1 dist 0) (nth i2 dist 0).
+Proof. exact get_distance_between. Qed.
+Theorem C05_selected_points_are_adjacent : forall (pos : list (R * R)) p i1, (2 <= length pos)%nat -> (i1 < length pos)%nat ->
+  let i2 := second_index Rops pos p i1 in (i2 < length pos)%nat /\ (i2 = i1 + 1 \/ i1 = i2 + 1)%nat.
+Proof. exact second_index_adjacent. Qed.
+Theorem C05_point_distance_at_fine_point : forall (pos : list (R * R)) (dist : list R) k,
+  (2 <= length pos)%nat -> (k < length pos)%nat -> NoDup pos ->
+  get_distance Rops pos dist (nth k pos (0, 0)) = nth k dist 0.
+Proof. exact get_distance_at_fine_point. Qed.
+
+Print Assumptions C05_distance_is_polygon_length.
+Print Assumptions C05_distance_bounds_chord.
+Print Assumptions C05_reverse_keeps_distance.
+Print Assumptions C05_point_distance_at_fine_point.
